@@ -218,6 +218,29 @@ CHECKS["C16"] = dict(
               "queries, replay on the real compiled code",
     design="2/C16")
 
+CHECKS["C18"] = dict(
+    level="model_checking",
+    text="Bounded model checking with z3: the CommandManager methods "
+         "(dispatch, execute_commands, run_queued_commands, wait_for_cmd, "
+         "pause_on_next, wait, cont, get_result) are translated from their "
+         "AST into a transition system at synchronisation-primitive "
+         "granularity; the schedule is a symbolic array; for one solver "
+         "thread (2 control points) and one or two interface threads with "
+         "programs over {queued command, get_result, pause_on_next, wait, "
+         "cont} z3 decides within K=48 (36 for three threads) transitions "
+         "that no global deadlock, KeyError state, double execution / "
+         "undelivered result or early return of wait() is reachable. "
+         "Counter-example schedules are replayed on the real module with "
+         "cooperative threading primitives.",
+    note="the AST translator (vf/bmc.py) is trusted and refuses unknown "
+         "statements; serial run (DummyComm); no spurious wake-ups; bounded "
+         "in K and in the interface programs; the lost wake-up of wait() is "
+         "a recorded known finding",
+    technique="SMT-based bounded model checking (QF_BV, symbolic schedule) "
+              "of a transition system generated from the python AST, replay "
+              "on the real code under a cooperative scheduler",
+    design="2/C18")
+
 NOT_APPLICABLE = {
     "C05": "whole-application runs of compiled OpenMP code compared across "
            "configurations up to summation order: no unit a solver can "
@@ -245,7 +268,7 @@ def main():
             thorough_cmd="./check %s thorough" % pid,
             evidence_file="/verif/evidence/%s.json" % pid,
             replay_cmd_template="./check %s --replay {path}" % pid,
-            engine="symx",
+            engine="bmc" if pid == "C18" else "symx",
             level_claimed=dict(category=c["level"], text=c["text"],
                                design_ref="DESIGN.md section " + c["design"]),
             level_note=c["note"],
@@ -267,8 +290,14 @@ def main():
                                     "-ra -q -p no:cacheprovider --timeout=900 "
                                     "--continue-on-collection-errors",
                    source_commits=[], add_only=True),
-        engines=[dict(name="symx", path="/verif/vf/symx.py",
-                      serves_properties=sorted(CHECKS),
+        engines=[dict(name="bmc", path="/verif/vf/bmc.py",
+                      serves_properties=["C18"],
+                      kind_free_text="AST-to-transition-system translator "
+                                     "and z3 bounded model checker for the "
+                                     "controller's thread protocol"),
+                 dict(name="symx", path="/verif/vf/symx.py",
+                      serves_properties=sorted(k for k in CHECKS
+                                               if k != "C18"),
                       kind_free_text="path-exhaustive symbolic executor for "
                                      "real Python code over z3 (DART-style "
                                      "re-execution)")],
